@@ -43,9 +43,77 @@ Definition u_alloc (a : sx) : sx :=
   | _ => bad_input
   end.
 
+(* ---- wave 6: the same units with the set of repairs applied (Model/Cardinal.v [repairs], Model/AllocScore.v [arepairs]) *)
+Definition as_repairs (a : sx) : option repairs :=
+  match a with
+  | L [t; m; c] => match as_bool t, as_bool m, as_bool c with
+                   | Some t, Some m, Some c => Some {| rp_trunc := t; rp_mj := m; rp_counted := c |}
+                   | _, _, _ => None end
+  | _ => None
+  end.
+Definition as_arepairs (a : sx) : option arepairs :=
+  match a with
+  | L [e; t] => match as_bool e, as_bool t with
+                | Some e, Some t => Some {| ra_exhausted := e; ra_tieseats := t |}
+                | _, _ => None end
+  | _ => None
+  end.
+
+(* args: (repairs cfg votes n) *)
+Definition u_score_voting_x (a : sx) : sx :=
+  match a with
+  | L [r; c; v; n] => match as_repairs r, as_score_cfg c, as_zsprofile v, as_nat n with
+                      | Some r, Some c, Some v, Some n => of_sres (score_voting_x r c v n)
+                      | _, _, _, _ => bad_input end
+  | _ => bad_input
+  end.
+(* args: (repairs plus cfg votes n) *)
+Definition u_mj_x (a : sx) : sx :=
+  match a with
+  | L [r; p; c; v; n] => match as_repairs r, as_bool p, as_score_cfg c, as_zsprofile v, as_nat n with
+                         | Some r, Some p, Some c, Some v, Some n => of_sres (majority_judgment_x r p c v n)
+                         | _, _, _, _, _ => bad_input end
+  | _ => bad_input
+  end.
+(* args: (repairs cfg votes) -> aggregated simple votes *)
+Definition u_score_to_simple_x (a : sx) : sx :=
+  match a with
+  | L [r; c; v] => match as_repairs r, as_score_cfg c, as_zsprofile v with
+                   | Some r, Some c, Some v => match score_to_simple_x r c v with
+                                               | inl d => ok (of_dict of_pos of_Q d)
+                                               | inr e => of_serr e end
+                   | _, _, _ => bad_input end
+  | _ => bad_input
+  end.
+(* args: (repairs mode quota orders votes n prev max), as u_alloc *)
+Definition u_alloc_x (a : sx) : sx :=
+  match a with
+  | L [r; A mode; qs; o; v; n; pv; mx] =>
+      match as_arepairs r, as_quota qs, as_listof (as_listof as_pos) o, as_sprofile v, as_nat n,
+            as_dict as_pos as_Z pv, as_dict as_pos as_Z mx with
+      | Some r, Some qs, Some o, Some v, Some n, Some pv, Some mx =>
+          if (mode =? 0)%Z then
+            match alloc_select_x r qs o v n with
+            | inl l => ok (L (map of_res l))
+            | inr e => of_aerr e
+            end
+          else
+            match alloc_distribute_x r qs o v n pv mx with
+            | inl el => ok (L (map (fun rk => L [of_res (fst rk); A (snd rk)]) el))
+            | inr e => of_aerr e
+            end
+      | _, _, _, _, _, _, _ => bad_input
+      end
+  | _ => bad_input
+  end.
+
 Definition u_c12 (k : Z) (a : sx) : sx :=
   match k with
   | 0 => u_star a
   | 1 => u_alloc a
+  | 2 => u_score_voting_x a
+  | 3 => u_mj_x a
+  | 4 => u_alloc_x a
+  | 5 => u_score_to_simple_x a
   | _ => bad_input
   end.
